@@ -1,6 +1,7 @@
 package sim
 
 import (
+	"archive/tar"
 	"bytes"
 	"context"
 	"errors"
@@ -140,9 +141,36 @@ func runC04(t *T) {
 	ref, refDir, cleanup := osTwin(t)
 	defer cleanup()
 	_ = refDir
-	k := c.Draw(lsCount + 1)
+	k := c.Draw(lsCount + 2)
 	var ls *layerStack
-	if k == lsCount {
+	oddTar := false
+	if k == lsCount+1 {
+		// a tar FS unpacked from an archive whose entry names contain backslash, colon, space, multi-byte
+		// characters and a leading "..": ordinary name bytes, never separators (the converse half)
+		var buf bytes.Buffer
+		w := tar.NewWriter(&buf)
+		must(t, w.WriteHeader(&tar.Header{Name: "a:b/", Typeflag: tar.TypeDir, Mode: 0755}))
+		must(t, hackpadfs.Mkdir(ref, "a:b", 0755))
+		for _, n := range []string{`a\b`, "a:b/ä b", "..a", `a:b/a\b`} {
+			data := []byte("data of " + n)
+			must(t, w.WriteHeader(&tar.Header{Name: n, Typeflag: tar.TypeReg, Mode: 0644, Size: int64(len(data))}))
+			_, err := w.Write(data)
+			must(t, err)
+			must(t, hackpadfs.WriteFullFile(ref, n, data, 0644))
+		}
+		must(t, w.Close())
+		r, err := htar.NewReaderFS(context.Background(), bytes.NewReader(buf.Bytes()), htar.ReaderFSOptions{})
+		must(t, err)
+		<-r.Done()
+		if uerr := r.UnarchiveErr(); uerr != nil {
+			t.Fail("odd-name", "C04:tar:odd-name-archive-refused", fmt.Sprintf("unpacking an archive whose names contain backslash, colon, space and a leading '..' failed: %v", uerr))
+		}
+		ls = &layerStack{name: "tar (odd entry names)", family: "tar", fs: r, readOnly: true, cleanup: func() {}}
+		oddTar = true
+		if sutSnap, refSnap := takeSnapshot(r, snapOpts{NoPerm: true}), takeSnapshot(ref, snapOpts{NoPerm: true}); sutSnap.Text != refSnap.Text {
+			t.Fail("odd-name", "C04:tar:odd-name-tree-differs", fmt.Sprintf("the tar FS does not show the archive's entries under their names (backslash, colon, space are ordinary name bytes):\n%s", diffText(sutSnap, refSnap, "tar", "os ")))
+		}
+	} else if k == lsCount {
 		// a tar FS whose unpacking failed: invalid names are still invalid
 		data := fixtureTar(t)
 		r, err := htar.NewReaderFS(context.Background(), bytes.NewReader(data[:len(data)/2+c.Draw(300)]), htar.ReaderFSOptions{})
@@ -153,7 +181,7 @@ func runC04(t *T) {
 		ls = buildLayerStack(t, k, ref)
 	}
 	defer ls.cleanup()
-	odd := c.Chance(1, 3) && !ls.readOnly && len(ls.mounts) == 0
+	odd := (c.Chance(1, 3) && !ls.readOnly && len(ls.mounts) == 0) || oddTar
 	if odd {
 		ls.alpha = []string{"a", `a\b`, "a:b", "ä b", "..a"}
 	}
@@ -230,6 +258,9 @@ func runC04(t *T) {
 			t.Fail("valid-refused", "C04:"+ls.family+":valid-name-refused:"+o.Kind, fmt.Sprintf("%s with valid names on %s failed with %v (ErrInvalid); os: %v", o, ls.name, got.Err, want.Err))
 		}
 		if (got.Err == nil) != (want.Err == nil) {
+			if oddTar && !(o.Kind == "ReadFile" && isDirIn(refSnap, o.P)) { // reading a directory as a file: C01's open finding, not a matter of names
+				t.Fail("odd-name", "C04:tar:odd-name-outcome:"+o.Kind, fmt.Sprintf("%s on %s: %v; os with the same entries: %v", o, ls.name, got.Err, want.Err))
+			}
 			break // C01's business
 		}
 		if o.Mutating() {
